@@ -41,7 +41,7 @@ CHECKS.update({
 TWIN_TECH = "deterministic simulation: twin execution of one seeded history on two differently built systems, with injected database faults"
 CHECKS.update({
  "C02": ("validsim", "exploration", "Boundary-biased transaction fields (gas limit around intrinsic/floor/block limit, fees around the base fee, nonce, value around the balance, overflowing products, sender with code or delegation, initcode size, blob counts/versions/prices, authorization lists, access lists, chain id, missing header fields) in histories of 1-10 transactions on one Evm. Oracle 1: an executable validity predicate written from the EIPs must agree on accept / reject-transaction / reject-header. Oracle 2: the history without the rejected transactions, run on a second system, gives equal results and an equal final state; the state is also compared around every rejected transaction. Database faults during validation must surface as errors and leave no trace.", E1_NOTE + " Only the class of a rejection is compared (several rules can fail at once).", "deterministic simulation: seeded boundary-value histories against an executable validity model + twin history without the rejected transactions + injected database faults", "5 C02"),
- "C21": ("collidesim", "exploration", "Collision matrix sampled per run: target pre-state {absent, code, nonce, storage only, balance only, nonce+storage} x nine layer stacks (and storage inserted into a CacheDB) x {CREATE, CREATE2, create transaction} x spec x {target touched by an earlier transaction or not}. Collision must occur exactly when the reference target has code, nonce or storage; on collision the create returns 0 / the transaction halts with CreateCollision, the forwarded gas is consumed, the target is unchanged and the creator's nonce is bumped; otherwise the contract is deployed over the kept balance.", E1_NOTE, "deterministic simulation: seeded configuration matrix over layer stacks (F7) with a reference collision predicate", "5 C21"),
+ "C21": ("collidesim", "exploration", "Collision matrix sampled per run: target pre-state {absent, code, nonce, storage only, balance only, nonce+storage} x nine layer stacks (and storage inserted into a CacheDB) x {CREATE, CREATE2, create transaction, EOFCREATE, EOF create transaction (the two EOF kinds under OSAKA)} x spec x {target touched by an earlier transaction or not}. Collision must occur exactly when the reference target has code, nonce or storage; on collision the create returns 0 / the transaction halts with CreateCollision, the forwarded gas is consumed, the target is unchanged and the creator's nonce is bumped; otherwise the contract is deployed over the kept balance.", E1_NOTE, "deterministic simulation: seeded configuration matrix over layer stacks (F7) with a reference collision predicate", "5 C21"),
  "C22": ("twinsim", "exploration", "A reward-off Evm and a reward-on twin run the same history of transactions interleaved with modify_spec_id, with_spec_id, append/pop handler register and modify().build(); after the history the reward-off beneficiary must be unchanged, the reward-on beneficiary must have gained exactly the sum of (price - base fee) x gas used, every result must be equal and every other account equal.", E1_NOTE + " Histories in which the beneficiary is a party of a transaction are not compared; no database faults (the twins issue different database calls).", TWIN_TECH, "5 C22"),
  "C28": ("twinsim", "exploration", "Every generated history runs on a system without inspector and on a twin with NoOpInspector, GasInspector, TracerEip3155 or the monitor registered through inspector_handle_register; ExecutionResult (class, reason, gas used, refunded, output, logs), the returned EvmState (every field) and the final committed state must be equal; database faults use the identical call-index schedule on both twins (evaluated when both issue the same database calls).", E1_NOTE, TWIN_TECH, "5 C28"),
  "C31": ("twinsim", "fault_enumeration", "System A is one Evm reused for the whole history (valid, rejected, reverting, halting transactions through transact / transact_commit / preverify_transaction / transact_preverified, transact without commit, spec changes, block advances); system B takes its database out of the Evm and builds a brand-new Evm around it before every op. Results, returned states and the final committed state must be equal. Database faults are injected at drawn call indices and, for marked ops, enumerated over every database call index of the op (the whole history is re-run once per index).", E1_NOTE + " Enumeration is capped at 48 call indices per marked op.", TWIN_TECH + "; fault enumeration over every database call index of marked ops", "5 C31"),
